@@ -155,10 +155,18 @@ def gen_project(ch, pool):
                         deps[y].append(x)
     # a target without tasks is invisible in the history, but what it
     # depends on still has to run (and before its dependents)
+    if ch.chance(1, 6, "dupdeps"):
+        # the same dependency named twice (depends="a,a")
+        for x in names:
+            if deps[x] and ch.chance(1, 2, "dupdep"):
+                deps[x].append(deps[x][ch.draw(len(deps[x]), "dupwhich")])
     ntasks = {x: ch.weighted([1, 10, 4, 2], "ntasks") for x in names} \
         if n <= 8 else {x: ch.weighted([1, 6], "ntasks") for x in names}
     via = ch.weighted([1, 1, 1], "via")  # 0 direct, 1 recipe, 2 construct
     default = None
+    if ch.chance(1, 5, "unuseddefault"):
+        # a default target that explicit requests must ignore
+        default = names[ch.draw(n, "defaultname")]
     ncalls = 1 + ch.weighted([5, 2, 1], "ncalls")
     calls = []
     for _ in range(ncalls):
@@ -176,7 +184,8 @@ def gen_project(ch, pool):
             fault = ch.draw(2 * n, "faultat")
         new_runner = ch.chance(1, 2, "newrunner")
         calls.append({"request": req, "use_default": use_default,
-                      "fault_at": fault, "new_runner": bool(new_runner)})
+                      "fault_at": fault, "new_runner": bool(new_runner),
+                      "as_tuple": bool(ch.chance(1, 4, "astuple"))})
     return {"names": names, "deps": deps, "ntasks": ntasks, "via": via,
             "default": default, "calls": calls}
 
@@ -224,6 +233,8 @@ def execute(desc):
         del _HISTORY[:]
         _FAULT[0] = call["fault_at"]
         req = [] if call["use_default"] else list(call["request"])
+        if call.get("as_tuple"):
+            req = tuple(req)
         try:
             if desc["via"] == 2:
                 # the public entry point: parses, builds and runs each time
